@@ -256,11 +256,14 @@ def check_C10(c):
     oracle(reqs, impl, "built-in set")
     # extended operator set (prefix-closed): registered symbolic and word operators
     pre = ["REG\tinfix\t%s\t115\tcalc\tleft\t(arg 0)" % hx(o) for o in ["**", "~", "=~", "<=>", "hi", "inside", "<~", "<~>"]] + \
+          ["REG\tinfix\t%s\t%d\tcalc\tleft\t(arg 0)" % (hx(o), p_) for o, p_ in [("otherwise", -5), ("<=|", -1), ("atzero", 0)]] + \
           ["REG\tprefix\t%s\t0\tcalc\tleft\t(arg 0)" % hx(o) for o in ["~~", "neg"]] + \
           ["REG\tpostfix\t%s\t0\tcalc\tleft\t(arg 0)" % hx(o) for o in ["!!", "percent", "§"]]
-    alpha2 = G.CHAR_ALPHABET + ["~", ">", "h", "i", "s", "d"]
+    alpha2 = G.CHAR_ALPHABET + ["~", ">", "h", "i", "s", "d", "|"]
     strings2 = []
-    words2 = G.WORDS + ["**", "~", "=~", "<=>", "hi", "inside", "in", "ins", "hinside", "~~", "neg", "!!", "<~", "<~>", "=~=", "<=", "percent", "percents", "§", "5 percent"]
+    words2 = G.WORDS + ["**", "~", "=~", "<=>", "hi", "inside", "in", "ins", "hinside", "~~", "neg", "!!", "<~", "<~>", "=~=", "<=", "percent", "percents", "§", "5 percent",
+                               # registered with a negative / zero precedence: still registered operators for the tokenizer
+                               "otherwise", "<=|", "atzero", "otherwises"]
     for _ in range(n // 2):
         k = 1 + rng.below(16)
         strings2.append("".join(rng.choice(alpha2) for _ in range(k)))
@@ -269,6 +272,17 @@ def check_C10(c):
     impl2, model2 = both(reqs2, timeout=900)
     c.add_stream(Stream("TOK extended operator set", reqs2, impl2, model2, numeric=False))
     oracle(reqs2[len(pre):], impl2[len(pre):], "extended set")
+    # every operator registered above — whatever its kind and precedence — is recognised as one operator token
+    ext_ops = [unhx(r.split("\t")[2]) for r in pre]
+    probes2 = [tok_req("7 %s 3" % o) for o in ext_ops] + [tok_req("[x %s (y)]" % o) for o in ext_ops]
+    ip2, mp2 = both(pre + probes2, timeout=300)
+    c.add_stream(Stream("TOK every operator of the extended set in context", pre + probes2, ip2, mp2, numeric=False))
+    for o, r, a in zip(ext_ops + ext_ops, probes2, ip2[len(pre):]):
+        f = a.split("\t")
+        items = [x.split(":") for x in f[2].split()] if a.startswith("OK\tok") and len(f) > 2 and f[2] else []
+        if not any(it[0] == "0" and unhx(it[1]) == o for it in items):
+            c.violation("implementation-vs-property", "a registered operator is not recognised as one operator token (longest match over the registered set)",
+                        {"requests": [x for x in pre if hx(o) in x] + [r], "implementation": a, "input_text": unhx(r.split("\t")[1]), "operator": o})
     # use before registration: a text is tokenized first, then one of its would-be operators is registered, then the same
     # text is tokenized again — the second result must show the operator (longest match over the *current* set; prefix-closed
     # sets only, see KF-C10-gap). Fresh operator names, so nothing earlier in this process has looked them up.
